@@ -536,6 +536,9 @@ class ConcurrentExecutor(ABC, Generic[CallableType, ResultType]):
             elif checkpoint.is_failed():
                 error = checkpoint.error
                 status = BatchItemStatus.FAILED
+                # the branch's recorded failure is reported without running its body: it counts as
+                # visited, otherwise the execution never leaves replay status
+                execution_state.track_replay(operation_id=operation_id)
             else:
                 status = BatchItemStatus.STARTED
 
